@@ -4,6 +4,7 @@ package main
 
 import (
 	"fmt"
+	"regexp"
 	"sort"
 	"strings"
 
@@ -231,6 +232,10 @@ func runZoneProvenance(c *Ctx) {
 		if b.headClass(expr) == clsZone {
 			return true, expr
 		}
+		// a variable captured by a closure is a cell holding what was assigned to it once
+		if in := unwrapCell(expr); in != expr && b.headClass(in) == clsZone {
+			return true, in
+		}
 		// a parameter: every caller passes timezoneOrUTC(...)
 		if prm, ok := z.(*ssa.Parameter); ok {
 			idx := -1
@@ -362,17 +367,51 @@ func runUnits(c *Ctx) {
 	p := c.P
 	if f := c.anchor("gtfs:parseStartTime"); f != nil {
 		ok, why := false, "no successful return"
+		// the (flag, duration) pairs the function can return: results merged by phis in the returning block are taken
+		// edge by edge, so that the duration is read where the flag is true
+		type pair struct{ flag, dur ssa.Value }
+		var pairs []pair
 		for _, blk := range f.Blocks {
 			ret, isRet := blk.Instrs[len(blk.Instrs)-1].(*ssa.Return)
-			if !isRet {
+			if !isRet || len(ret.Results) != 2 {
 				continue
 			}
-			if k, isC := ret.Results[0].(*ssa.Const); isC {
+			p0, isPhi0 := ret.Results[0].(*ssa.Phi)
+			p1, isPhi1 := ret.Results[1].(*ssa.Phi)
+			if isPhi0 && p0.Block() == blk {
+				for i, e := range p0.Edges {
+					dv := ret.Results[1]
+					if isPhi1 && p1.Block() == blk {
+						dv = p1.Edges[i]
+					}
+					pairs = append(pairs, pair{e, dv})
+				}
+			} else {
+				pairs = append(pairs, pair{ret.Results[0], ret.Results[1]})
+			}
+		}
+		for _, pr := range pairs {
+			if k, isC := pr.flag.(*ssa.Const); isC {
 				if bv, _ := constBool(k); !bv {
 					continue
 				}
 			}
-			poly, perr := polyOf(ret.Results[1], 0)
+			poly, perr := polyOf(pr.dur, 0)
+			if perr == "" {
+				// elements of a local array stand for what was stored in them
+				res := map[string]int64{}
+				for atom, cf := range poly {
+					if strings.HasPrefix(atom, "piece[") {
+						var k int64
+						fmt.Sscanf(atom, "piece[%d]", &k)
+						if e := localArrayCell(f, k); e != "" {
+							atom = e
+						}
+					}
+					res[atom] += cf
+				}
+				poly = res
+			}
 			if perr != "" {
 				why = perr
 				continue
@@ -510,4 +549,61 @@ func checkNilPreserving(c *Ctx, f *ssa.Function) {
 		}
 	}
 	c.Check(ok && nilIn, "UNITS", fname, "absent stays absent", p.pos(f.Pos()), "nil argument gives nil; a present argument gives a value", why+" table: "+clip(tb.String(), 300))
+}
+
+// localArrayCell: what the k-th element of the function's local array holds when it is read after the loops that fill
+// it: the value stored by `arr[k] = v`, or by `arr[i] = v(i)` in a loop whose i visits 0..n-1 (n > k), with i replaced
+// by k. "" when there is not exactly one such store.
+func localArrayCell(f *ssa.Function, k int64) string {
+	var found []string
+	for _, b := range f.Blocks {
+		for _, in := range b.Instrs {
+			st, ok := in.(*ssa.Store)
+			if !ok {
+				continue
+			}
+			ia, ok := st.Addr.(*ssa.IndexAddr)
+			if !ok || isLocalArrayAlloc(ia.X) == nil {
+				continue
+			}
+			if c, isC := constInt(ia.Index); isC {
+				if c == k {
+					found = append(found, descr(st.Val))
+				}
+				continue
+			}
+			if n, isR := rangeIndexConst(ia.Index); isR && k < n {
+				e := strings.ReplaceAll(descr(st.Val), descr(ia.Index), fmt.Sprintf("const(%d)", k))
+				found = append(found, foldConstSums(e))
+			}
+		}
+	}
+	if len(found) != 1 {
+		return ""
+	}
+	return found[0]
+}
+
+var constSumRe = regexp.MustCompile(`const\((\d+)\)\+const\((\d+)\)`)
+
+func foldConstSums(e string) string {
+	for i := 0; i < 8; i++ {
+		m := constSumRe.FindStringSubmatchIndex(e)
+		if m == nil {
+			return e
+		}
+		var a, b int64
+		fmt.Sscanf(e[m[2]:m[3]], "%d", &a)
+		fmt.Sscanf(e[m[4]:m[5]], "%d", &b)
+		e = e[:m[0]] + fmt.Sprintf("const(%d)", a+b) + e[m[1]:]
+	}
+	return e
+}
+
+// unwrapCell: cell(&(X)) -> X (a captured variable with a single assignment, as the binder renders it).
+func unwrapCell(e string) string {
+	for strings.HasPrefix(e, "cell(&(") && strings.HasSuffix(e, "))") && !strings.Contains(e, " | ") {
+		e = e[len("cell(&(") : len(e)-2]
+	}
+	return e
 }
